@@ -89,6 +89,7 @@ class FlowFacts:
         self.fns = {}  # id -> fact
         self.by_path = {}  # path -> [fact]
         self.adts = {}
+        self.statics = []
         self.meta = {}
         self._callers = None
         self._closures = None
@@ -111,6 +112,8 @@ class FlowFacts:
                         self.by_path.setdefault(f["path"], []).append(f)
                     elif t == "adt":
                         self.adts.setdefault(f["path"], f)
+                    elif t == "static":
+                        self.statics.append(f)
                     elif t == "meta":
                         self.meta[name] = f
         self.done = json.load(open(os.path.join(self.dir, "DONE")))
